@@ -1,6 +1,7 @@
 #!/bin/sh
 # Run /repo's pinned suite (guard off) and compare with BASELINE.json's stable_pass list.
 cd /repo && /venv/bin/python -m pytest -q -p no:cacheprovider --timeout=900 --continue-on-collection-errors --junitxml=/tmp/verif_baseline.xml >/tmp/verif_baseline.log 2>&1
+git -C /repo clean -fdq
 /venv/bin/python - <<'PY'
 import json, xml.etree.ElementTree as ET
 base = set(json.load(open('/root/.vp/BASELINE.json'))['stable_pass'])
